@@ -135,6 +135,7 @@ def run_case(case, want_log=False):
         "faults": dict(CTX.faults),
         "probes": dict(CTX.probes),
         "known_hits": dict(CTX.known_hits),
+        "dump_hashes": list(CTX.dump_hashes),
         "evals": dict(m.evals),
         "distinct": dict((k, sorted(v)) for k, v in m.distinct.items()),
     }
